@@ -169,6 +169,17 @@ func (p *Part) Write(path string) error {
 type Deadline struct{ at time.Time }
 
 func NewDeadline(d time.Duration) *Deadline { return &Deadline{at: time.Now().Add(d)} }
+
+// NewDeadlineAt makes a deadline at an absolute time (unix seconds); 0 means none.
+func NewDeadlineAt(unix int64) *Deadline {
+	if unix == 0 {
+		return nil
+	}
+	return &Deadline{at: time.Unix(unix, 0)}
+}
+
+// Unix returns the absolute time of the deadline.
+func (d *Deadline) Unix() int64 { return d.at.Unix() }
 func (d *Deadline) Expired() bool           { return d != nil && time.Now().After(d.at) }
 
 // ---------------------------------------------------------------------------
